@@ -693,6 +693,48 @@ def r01_8(ctx) -> None:
     ctx.ok("R01.8", "JWS message classes", f"{n} class-level container attribute(s) on the JWS message classes, each replaced per instance")
 
 
+def r01_18(ctx) -> None:
+    """R01.18  "over exactly the received protected-header octets": the flattened readers keep a received `protected` / `header` member whenever it is
+    PRESENT in the input - `if "protected" in value: sig["protected"] = value["protected"]`.  A test of the decoded member's truthiness instead drops a
+    protected header that decodes to `{}` from the signing input: the token then verifies with or without it."""
+    from ..cfg import cfg_of
+    eng = ctx.eng
+    n = 0
+    for short in ("rfc7515.json:extract_flattened_json", "rfc7797.json:_extract_json", "rfc7797.json:deserialize_json"):
+        try:
+            fn = eng.prog.func(short)
+        except AnalysisError:
+            continue
+        if not fn.pos_params:
+            continue
+        vp = fn.pos_params[0]
+        cfg = cfg_of(fn)
+        for x in fn_nodes(fn):
+            if not (isinstance(x, ast.Assign) and len(x.targets) == 1 and isinstance(x.targets[0], ast.Subscript) and const_value(x.targets[0].slice) in ("protected", "header")
+                    and isinstance(x.value, ast.Subscript) and norm(x.value.value) == vp and const_value(x.value.slice) == const_value(x.targets[0].slice)):
+                continue
+            k = const_value(x.targets[0].slice)
+            sn = cfg.node_of(x)
+            if sn is None:
+                continue
+            n += 1
+            deciding = []
+            for t in cfg.nodes:
+                if t.kind != "test" or t.ast is None:
+                    continue
+                r_true = sn in cfg.reachable(cfg.entry, edge_filter=lambda a, b, lab, _t=t: not (a is _t and lab == "false"))
+                r_false = sn in cfg.reachable(cfg.entry, edge_filter=lambda a, b, lab, _t=t: not (a is _t and lab == "true"))
+                if r_true != r_false and any((isinstance(y, ast.Constant) and y.value == k) or (isinstance(y, ast.Attribute) and y.attr == k) or (isinstance(y, ast.Name) and y.id == k)
+                                             for y in ast.walk(t.ast)):
+                    deciding.append((t, r_true))
+            ok = bool(deciding) and all(isinstance(t.ast, ast.Compare) and len(t.ast.ops) == 1 and isinstance(t.ast.ops[0], ast.In) and const_value(t.ast.left) == k
+                                        and norm(t.ast.comparators[0]) == vp and pol for t, pol in deciding)
+            ctx.check(ok, "R01.18", fn, x, f"{fn.short} :: received \"{k}\" member kept when present", f"the received \"{k}\" member is kept depending on "
+                      f"{[norm(t.ast)[:40] for t, _ in deciding] or 'nothing'}, not on its presence in the input: a member that is present but decodes to an empty object is dropped from what is verified",
+                      f'if "{k}" in {vp}: sig["{k}"] = {vp}["{k}"]', construct=f"received {k} member kept when present in {fn.short}")
+    ctx.count("R01.18", n, 4, "received protected / header members copied into the signature entry by the flattened readers")
+
+
 def run(ctx) -> None:
     from .c14 import r14_1 as _r14_1
     ctx.guard_as("R01.13", _r14_1)  # "valid under the key resolved for it": a kid names the key whose kid EQUALS it (no suffix / prefix / case match)
@@ -731,5 +773,6 @@ def run(ctx) -> None:
     ctx.guard_as("R01.17", _r19_2_3)  # "truncating or extending a signature is rejected": the decoder of the signature segment is the strict one (nothing after the padding, no foreign characters)
     from .common import syntax_dispatch
     ctx.guard(syntax_dispatch, "R01.16", "rfc7515.json:extract_general_json", "rfc7515.json:extract_flattened_json", "signatures")
+    ctx.guard(r01_18)
     ctx.assume("pyca/cryptography verify primitives reject every forged signature (unforgeability is trusted)")
     ctx.assume("receiver types as inferred by mypy; class-hierarchy analysis for dynamic dispatch")
